@@ -1,5 +1,6 @@
 import Drivers.Wire
 import Model.Storage
+import Model.StorageAlias
 
 /-!
 Driver for C13 — stateful sessions (`DH.Wire.serve`): the driver keeps one model store per session id.
@@ -17,6 +18,13 @@ requests
   `{"op":"conc","progs":[[call,…],…],"sched":[i,…]}`  the concurrent semantics `Conc.run` from an empty store
                                                  → per-client outputs + the linearized history's outputs
   `{"op":"split","sid":…}`                      the non-atomic `create_new_job` witness on a fresh store
+  `{"op":"alias","ops":[aop,…]}`                the world of OBJECTS (`Model/StorageAlias.lean`: identities of the dicts / lists)
+                                                 from an empty job table; every answer with the identity of each container:
+                                                 `{"d":[…],"id":n}` / `{"l":[…],"id":n}`
+      aop  `["new_job",jid]` | `["store_job",jid,key,REF]` | `["store_meta",jid,key,REF]` | `["load_job",jid]` | `["load_all"]`
+           | `["load_jobs",[jid,…]]` | `["edit",REF,["set",key,REF] | ["del",key] | ["append",REF] | ["clear"]]`
+      REF  `{"new":value}` (an object the caller just built) | `{"held":i,"path":[key,…]}` (a part of what the i-th
+           successful load returned)
 values  `null` | `true` | `{"i":n}` | `{"f":"n/d"}` | `{"s":"…"}` | `{"l":[…]}` | `{"t":[…]}` | `{"d":[[key,value],…]}`
 OUT     `{"k":"none"}` | `{"k":"id","v":"0.1"}` | `{"k":"ids","v":[…]}` | `{"k":"val","v":value}` |
         `{"k":"vals","v":[value,…]}` | `{"k":"error","v":"KeyError"}` | `{"k":"oom"}`
@@ -126,6 +134,91 @@ def jOut (j : Json) : Except String Out := do
   | "error" => return .error (← jErr (← jStr (← field j "v")))
   | _ => throw s!"unknown answer kind {k}"
 
+/-! ### the world of objects (`Model/StorageAlias.lean`) -/
+
+/-- an object the caller has just built: every container in it is new (identities from `n` on) -/
+partial def labelVal (n : Nat) : Val → RVal × Nat
+  | .none => (.atom .none, n)
+  | .bool b => (.atom (.bool b), n)
+  | .int i => (.atom (.int i), n)
+  | .num q => (.atom (.num q), n)
+  | .str s => (.atom (.str s), n)
+  | .list l =>
+    let (l', m) := l.foldl (fun (acc : List RVal × Nat) x => let (x', k) := labelVal acc.2 x; (acc.1 ++ [x'], k)) ([], n + 1)
+    (.list n l', m)
+  | .tuple l =>
+    let (l', m) := l.foldl (fun (acc : List RVal × Nat) x => let (x', k) := labelVal acc.2 x; (acc.1 ++ [x'], k)) ([], n)
+    (.tuple l', m)
+  | .dict kv =>
+    let (kv', m) := kv.foldl (fun (acc : List (String × RVal) × Nat) p =>
+      let (x', k) := labelVal acc.2 p.2; (acc.1 ++ [(p.1, x')], k)) ([], n + 1)
+    (.dict n kv', m)
+
+partial def rvalJson : RVal → Json
+  | .atom a => valJson a.toVal
+  | .list a l => Json.mkObj [("l", Json.arr (l.map rvalJson).toArray), ("id", Json.num (JsonNumber.fromNat a))]
+  | .tuple l => Json.mkObj [("t", Json.arr (l.map rvalJson).toArray)]
+  | .dict a kv => Json.mkObj [("d", Json.arr (kv.map (fun (k, v) => Json.arr #[Json.str k, rvalJson v])).toArray),
+      ("id", Json.num (JsonNumber.fromNat a))]
+
+def aoutJson : AOut → Json
+  | .none => Json.mkObj [("k", "none")]
+  | .val r => Json.mkObj [("k", "val"), ("v", rvalJson r)]
+  | .error e => Json.mkObj [("k", "error"), ("v", errName e)]
+
+/-- what the i-th successful load returned (the world keeps them newest first) -/
+def heldAt (W : World) (i : Nat) : Option RVal :=
+  if i < W.held.length then W.held[W.held.length - 1 - i]? else none
+
+def resolveRef (W : World) (j : Json) : Except String RVal :=
+  match j.getObjVal? "new" with
+  | .ok v => do return (labelVal W.next (← jVal v)).1
+  | .error _ => do
+    let h ← jNat (← field j "held")
+    let p ← jList jStr (← field j "path")
+    match heldAt W h with
+    | none => throw s!"no handle {h}"
+    | some r =>
+      match r.sub p with
+      | some x => return x
+      | none => throw s!"handle {h} has no part {p}"
+
+def jEdit (W : World) (j : Json) : Except String Edit := do
+  let a ← j.getArr?
+  match ← jStr (a.getD 0 Json.null) with
+  | "set" => return .setKey (← jStr (a.getD 1 Json.null)) (← resolveRef W (a.getD 2 Json.null))
+  | "del" => return .delKey (← jStr (a.getD 1 Json.null))
+  | "append" => return .append (← resolveRef W (a.getD 1 Json.null))
+  | "clear" => return .clear
+  | x => throw s!"unknown edit {x}"
+
+def jAOp (W : World) (j : Json) : Except String AOp := do
+  let a ← j.getArr?
+  let s (i : Nat) : Except String String := jStr (a.getD i Json.null)
+  match ← s 0 with
+  | "new_job" => return .newJob (← s 1)
+  | "store_job" => return .storeJob (← s 1) (← s 2) (← resolveRef W (a.getD 3 Json.null))
+  | "store_meta" => return .storeMeta (← s 1) (← s 2) (← resolveRef W (a.getD 3 Json.null))
+  | "load_job" => return .loadJob (← s 1)
+  | "load_all" => return .loadAll
+  | "load_jobs" => return .loadJobs (← jList jStr (a.getD 1 Json.null))
+  | "edit" =>
+    match ← resolveRef W (a.getD 1 Json.null) with
+    | .dict b _ => return .callerEdit b (← jEdit W (a.getD 2 Json.null))
+    | .list b _ => return .callerEdit b (← jEdit W (a.getD 2 Json.null))
+    | _ => throw "edit: not a container"
+  | x => throw s!"unknown aop {x}"
+
+/-- a script; an operation whose references cannot be resolved in the model's world (the real storage returned something
+of another shape) is answered `unresolved` and skipped: the harness reports the difference, the driver does not fail -/
+def runAlias (js : List Json) : World × List Json :=
+  js.foldl (fun (acc : World × List Json) j =>
+    match jAOp acc.1 j with
+    | .ok op =>
+      let (W', o) := astep acc.1 op
+      (W', acc.2 ++ [aoutJson o])
+    | .error e => (acc.1, acc.2 ++ [Json.mkObj [("k", "unresolved"), ("v", e)]])) (World.init, [])
+
 inductive Sess where
   | mem (s : Store)
   | null (s : NullStore)
@@ -210,6 +303,11 @@ def handle (st : St) (j : Json) : Except String (St × Json) := do
     let (_, onext) := step s3 (.createJob sid)
     return (st, Json.mkObj [("ok", true), ("b", outJson ob), ("a", outJson oa), ("listing", outJson olist),
       ("next", outJson onext)])
+  | "alias" =>
+    let ops ← (← field j "ops").getArr?
+    let (W, outs) := runAlias ops.toList
+    return (st, Json.mkObj [("ok", true), ("outs", Json.arr outs.toArray),
+      ("next", Json.num (JsonNumber.fromNat W.next))])
   | _ => throw s!"unknown op {op}"
 
 def main : IO Unit :=
